@@ -614,6 +614,7 @@ static void run_transport(vh_rng_t *rng)
 #include "sim_cache.h"
 #include "sim_prov.h"
 #include "sim_addr.h"
+#include "sim_health.h"
 
 static int profile_run(const char *profile, vh_rng_t *rng, uint64_t idx)
 {
@@ -625,6 +626,10 @@ static int profile_run(const char *profile, vh_rng_t *rng, uint64_t idx)
     gen_hostile(rng);
     run_generic(rng);
     hostile_fingerprint();
+    return 1;
+  }
+  if (!strcmp(profile, "failover")) {
+    run_failover(rng);
     return 1;
   }
   if (!strcmp(profile, "addr")) {
